@@ -63,6 +63,9 @@ type World struct {
 	LockT0 map[int]time.Time
 	// scan index of the last cloud scale-up of a group that failed (cleared by a success or a restart)
 	FailedIncrease map[int]int
+	// allocatable of the first listed node of the group's last non-empty scan in this controller
+	// incarnation: the "last observed node size" used when scaling from zero
+	LastSize map[int]v1.ResourceList
 
 	podSeq  map[int]int // per group, so that changes inside one group do not rename another group's objects
 	nodeSeq map[int]int
@@ -86,7 +89,7 @@ func New(cfg Config) *World {
 	w := &World{Cfg: cfg, J: j, K: sim.NewK8s(j), V: sim.NewView(j), A: sim.NewAWS(j), LockT0: map[int]time.Time{}}
 	for g := range cfg.Groups {
 		gs := &cfg.Groups[g]
-		w.A.AddASG(gs.Opts.CloudProviderGroupName, gs.ASGMin, gs.ASGMax, int64(gs.InitNodes), "subnet-a,subnet-b")
+		w.A.AddASG(gs.Opts.CloudProviderGroupName, gs.ASGMin, gs.ASGMax, int64(gs.InitNodes), fmt.Sprintf("subnet-g%da,subnet-g%db", g, g))
 	}
 	return w
 }
@@ -225,6 +228,7 @@ func (w *World) EnsureController() error {
 	w.Epoch++
 	w.LockT0 = map[int]time.Time{}
 	w.FailedIncrease = map[int]int{}
+	w.LastSize = map[int]v1.ResourceList{}
 	return nil
 }
 
@@ -431,7 +435,7 @@ func (a Action) String() string {
 	case "launch":
 		add("g=%d n=%d ages=%v", a.Group, a.N, a.Ages)
 	case "taint":
-		add("node=%s %s=%q:%s", a.Node, a.Key, a.Val, a.Effect)
+		add("node=%s %s=%q:%s keepExisting=%v", a.Node, a.Key, a.Val, a.Effect, a.Flag)
 	case "setCreated":
 		add("node=%s zero=%v age=%ds", a.Node, a.Flag, a.N)
 	case "untaint":
@@ -587,7 +591,18 @@ func (w *World) Apply(a Action) (rec *ScanRecord, ok bool) {
 			ok = false
 		}
 	case "taint":
-		if n := w.K.Nodes[a.Node]; n != nil {
+		if n := w.K.Nodes[a.Node]; n != nil && a.Flag {
+			// keep what is there: the key may then appear twice (Kubernetes allows it for different effects)
+			dup := false
+			for _, t := range n.Spec.Taints {
+				if t.Key == a.Key && string(t.Effect) == a.Effect {
+					dup = true
+				}
+			}
+			if !dup {
+				n.Spec.Taints = append(n.Spec.Taints, v1.Taint{Key: a.Key, Value: a.Val, Effect: v1.TaintEffect(a.Effect)})
+			}
+		} else if n != nil {
 			n.Spec.Taints = append(removeTaint(n.Spec.Taints, a.Key), v1.Taint{Key: a.Key, Value: a.Val, Effect: v1.TaintEffect(a.Effect)})
 		} else {
 			ok = false
